@@ -7,9 +7,10 @@ import random
 import streamlib as sl
 from vlib import build_lib
 
-THEOREMS = ["C18_table_inv", "C18_table_inv_step", "C18_stale_skipped_oneshot", "C18_stale_skipped_stream", "C18_fastReset_any_state", "C18_history_roundtrip"]
+THEOREMS = ["C18_table_inv", "C18_table_inv_step", "C18_stale_skipped_oneshot", "C18_stale_skipped_stream", "C18_fastReset_any_state", "C18_history_roundtrip", "C18_hc_mid_reuse", "C18_hc_mid_step", "C18_hc_mid_fastReset", "C18_hc_mid_history"]
 ORACLES = ["stream"]
-CORRESPONDENCE = ["Model.FastStream / Model.FastApi (prepareTable reset conditions, fastReset one-shots, extState, destSize_extState, resetStream_fast, "
+CORRESPONDENCE = ["Model.HcMidStream (HC levels 1-2: initStreamHC, resetStreamHC(_fast), setCompressionLevel, loadDictHC/LZ4MID_fillHTable, attach_HC_dictionary with the dictionary context copied / detached / searched in place (LZ4MID_searchExtDict = Model.HcMidDict), setExternalDict, overlap trimming, 2 GB reload, compress_HC_continue(_destSize), saveDictHC (fixes F17, F18), extStateHC(_fastReset)) == lib/lz4hc.c: return value, consumed, bytes, both LZ4MID hash tables, end/prefixStart/dictStart (arena addresses), dictLimit/lowLimit/nextToUpdate, level, dirty, dictCtx null/non-null after EVERY mirrored call; calls at levels >= 3 or searching a dictionary context whose stream is at a level >= 3 (LZ4MID_searchHCDict) are outside the model (state re-imported afterwards)",
+                  "Model.FastStream / Model.FastApi (prepareTable reset conditions, fastReset one-shots, extState, destSize_extState, resetStream_fast, "
                   "streaming sessions, loadDict, attach, failed calls) == lib/lz4.c: return value, output bytes and whole public stream state after EVERY operation of the history"]
 RULE = ("histories of 14..40 operations on ONE context: fast-reset one-shots of size classes {<4KB, 4KB..64KB+11 (16-bit table), >=65547 (32-bit table)}, "
         "LZ4_compress_fast_extState, LZ4_compress_destSize_extState, short streaming sessions after LZ4_resetStream_fast (plain / loadDict / attach), capacities forcing "
@@ -27,13 +28,14 @@ def build(tier):
 def gen_cases(tier, seed):
     rng = random.Random(seed)
     n = {"quick": 48, "search": 160, "thorough": 300}[tier]
-    cases = [{"bseed": 18, "kind": "corpus_u16_cleared", "arena": 1 << 16, "model": False},
+    cases = [{"bseed": 17, "kind": "corpus_F17", "arena": 1 << 18, "model": False},
+             {"bseed": 18, "kind": "corpus_u16_cleared", "arena": 1 << 16, "model": False},
              {"bseed": 18, "kind": "corpus_u16_cleared", "arena": 1 << 16}]
     for i in range(n):
         fam = "f" if i % 3 < 2 else "h"
         big = i % 7 == 0
         cases.append({"bseed": rng.randrange(1 << 48), "kind": "reuse_" + fam, "fam": fam,
-                      "p": {"nops": rng.choice([14, 25, 40]) if not big else 14, "pbig": 0.3 if big else 0.04, "pmid": 0.3 if big else 0.25,
+                      "p": {"levels": [1, 2, 2] if (fam == "h" and i % 2 == 0) else sl.HC_LEVELS_CHEAP, "nops": rng.choice([14, 25, 40]) if not big else 14, "pbig": 0.3 if big else 0.04, "pmid": 0.3 if big else 0.25,
                             "arena_in": 500000 if big else 300000},
                       "arena": (500000 if big else 300000) + 3 * sl.K64 + 8192, "mirror": False, "ring": i % 2 == 0})
     # attach, compress nothing (or an empty input) on a cleared table, reset, dictionary-less session with dictionary-like content:
@@ -54,6 +56,8 @@ def gen_cases(tier, seed):
 worker_init = sl.worker_init
 
 def run_case(st, case):
+    if case["kind"] == "corpus_F17":
+        return sl.run_scenario(st, case, lambda S, rng: sl.corpus_savedict_fresh(S, rng))
     if case["kind"].startswith("attach_abandoned"):
         return sl.run_scenario(st, case, lambda S, rng: sl.scen_attach_abandoned(S, rng, case["fam"], {}))
     if case["kind"] == "corpus_u16_cleared":
